@@ -46,11 +46,3 @@ func VerifC03_ecdsa_blind_ops() {
 	}
 	vReach("no-crash")
 }
-
-// C12 (signing side, digest handling): the blinded signature is made over the same integer that a
-// standard verifier derives from the digest, for digests shorter and longer than the order (the
-// truncation rule of hashToInt, decided for every digest length under C13, restated here because
-// a blinded signature that a standard verifier rejects is a C12 failure as well)
-func VerifC12_sign_digest_truncation() {
-	VerifC13_hash_to_int()
-}
